@@ -439,6 +439,11 @@ def s_constant_if_conditions(ctx):
     ifn = SObj(ast.If, "ifnode", ref=z3.Const("ifn", A.Obj), lazy=A._lazy)
     other = A.new_stmt(z3.Const("other", A.Obj), "other", kinds=[ast.Assign, ast.Return])
     I.models[ast.walk] = lambda interp, node: [fun, other, ifn]
+    # the parameters of the function: one of each kind, names symbolic (they may or may not coincide with the condition's name)
+    pnames = {k: z3.Const("param_" + k, z3.StringSort()) for k in ("posonly", "plain", "kwonly", "vararg", "kwarg")}
+    mk = lambda k: ast.arg(arg=SStr(pnames[k]), annotation=None)
+    fun.fields["args"] = ast.arguments(posonlyargs=[mk("posonly")], args=[mk("plain")], vararg=mk("vararg"), kwonlyargs=[mk("kwonly")],
+                                       kw_defaults=[None], kwarg=mk("kwarg"), defaults=[])
     gval = [0, 1, "", "x", None][ctx.choose(5, "global value")]
     globs = {"g": gval}
     clo = I.closure_of(_mod().AstAnalyzer._compute_constant_if_conditions)
@@ -459,6 +464,9 @@ def s_constant_if_conditions(ctx):
     ctx.check("C01.analysis.constant_if.name_is_a_global", name == z3.StringVal("g"), CL)
     ctx.check("C01.analysis.constant_if.name_assigned_nowhere_in_the_function", z3.Not(z3.IsMember(name, body_defs)),
               "C01: 'reading the source as ordinary Python control flow' — a local variable that shadows a global must not be folded to the global's truth value")
+    ctx.check("C01.analysis.constant_if.name_is_not_a_parameter_of_the_function", z3.And(*[name != p for p in pnames.values()]),
+              "C01: 'reading the source as ordinary Python control flow' — a parameter that shadows a global is a run-time value (eager mode "
+              "uses the argument), it must not be folded to the global's truth value")
     ctx.check("C01.analysis.constant_if.value_is_truth_of_the_global", rec[ifn] is bool(gval), CL)
 
 
